@@ -25,7 +25,65 @@ pub struct Ctx {
     pub miri: bool,
 }
 
+/// index of the case the monitor is executing (read by the stuck-case monitor)
+pub static CURRENT_CASE: std::sync::atomic::AtomicU64 = std::sync::atomic::AtomicU64::new(u64::MAX);
+
+fn process_cpu_ticks() -> u64 {
+    if let Ok(s) = std::fs::read_to_string("/proc/self/stat") {
+        if let Some(p) = s.rfind(')') {
+            let rest: Vec<&str> = s[p + 1..].split_whitespace().collect();
+            if rest.len() > 13 {
+                return rest[11].parse::<u64>().unwrap_or(0) + rest[12].parse::<u64>().unwrap_or(0);
+            }
+        }
+    }
+    0
+}
+
+/// A case that consumes more than `limit_s` seconds of CPU time (about 10^7 times the
+/// normal cost of a case) does not terminate: the helper thread reports it as a
+/// violation with the case as replay and ends the process. CPU time, not wall time, so
+/// machine load cannot cause it. Covers loops in the code under test that touch neither
+/// the source nor the policy (those have logical budgets of their own).
+pub fn start_stuck_monitor(replay: serde_json::Value, prop: String, limit_s: u64) {
+    if cfg!(miri) {
+        return;
+    }
+    std::thread::spawn(move || {
+        let mut last_case = u64::MAX;
+        let mut cpu_at_change = process_cpu_ticks();
+        loop {
+            std::thread::sleep(std::time::Duration::from_millis(500));
+            let c = CURRENT_CASE.load(std::sync::atomic::Ordering::Relaxed);
+            let cpu = process_cpu_ticks();
+            if c != last_case {
+                last_case = c;
+                cpu_at_change = cpu;
+                continue;
+            }
+            if c != u64::MAX && cpu.saturating_sub(cpu_at_change) > limit_s * 100 {
+                let mut r = replay.clone();
+                r["index"] = serde_json::json!(c);
+                let v = serde_json::json!({
+                    "property": prop, "evaluations": 1, "distinct_nontrivial": 0, "counters": {}, "maps": {"violation_signatures": {"no-termination": 1}},
+                    "samples": [], "inconclusive": [], "notes": [], "n_violations": 1,
+                    "violations": [{"property": prop, "sig": "no-termination",
+                        "what": format!("case {} consumed more than {} s of CPU time without finishing: the code under test does not terminate", c, limit_s),
+                        "replay": r}],
+                });
+                println!("VERIF-REPORT {}", v);
+                std::process::exit(0);
+            }
+        }
+    });
+}
+
 impl Ctx {
+    /// marks the start of case `idx`
+    #[inline]
+    pub fn begin(&self, idx: u64) {
+        CURRENT_CASE.store(idx, std::sync::atomic::Ordering::Relaxed);
+    }
     pub fn expired(&self) -> bool {
         Instant::now() >= self.deadline
     }
